@@ -65,10 +65,11 @@ class Program:
             raise Unsupported(f'target lookup {pattern!r}: {len(c)} candidates {[x.name for x in c[:5]]}')
         return c[0]
 
-    def find_method(self, selfty, method, trait=None, crate=None):
+    def find_method(self, selfty, method, trait=None, crate=None, where=None):
         c = []
         for f in self.by_short.get(method, []):
             if crate and f.crate != crate: continue
+            if where and where not in f.name: continue
             tr, ty = self.header(f)
             if ty == selfty and (trait is None or tr == trait or (tr or '').startswith('derive:')):
                 if trait is None and tr is not None and not (tr or '').startswith('derive:'):
